@@ -232,6 +232,49 @@ func TestVerifRootAdmission(t *testing.T) {
 			}
 		}
 	}
+	// ---- capacities that are powers of two: the entry count of a full cache then sits exactly on the length of the frequency
+	// sketch's table, the boundary of its grow test (a same-size "growth" would wipe the frequency history on every insert)
+	for _, size := range []int{64, 256, 1024} {
+		for kind := 0; kind < 2; kind++ {
+			for _, frac := range []float64{0.3, 0.5} {
+				r := rand.New(rand.NewSource(seed0*999331 + int64(size)*17 + int64(kind)))
+				c := vmkCache(kind, size)
+				hot := int(float64(size) * frac)
+				// the cache fills with one-off keys first: the hot set has to earn its place through admission
+				oneoff := 5_000_000
+				for i := 0; i < 2*size; i++ {
+					oneoff++
+					c.insert(oneoff)
+				}
+				n := 60 * size
+				hits, reads := 0, 0
+				for i := 0; i < n; i++ {
+					if r.Intn(100) < 40 {
+						ok := c.read(r.Intn(hot))
+						if i >= n*3/4 {
+							reads++
+							if ok {
+								hits++
+							}
+						}
+					} else {
+						oneoff++
+						c.insert(oneoff)
+					}
+				}
+				c.close()
+				ratio := float64(hits) / float64(reads)
+				nmeas++
+				if ratio < minHot {
+					minHot = ratio
+				}
+				fmt.Fprintf(w, "O 92 %d %d %d | %d\n", size, kind, int(frac*100), int(ratio*1000))
+				if ratio < 0.90 {
+					viol(fmt.Sprintf("C09: hot set of %d keys in a cache of %d (a power of two; kind %d) that was first filled with one-off keys, 60%% one-off insertions: hit ratio %.3f over the last quarter", hot, size, kind, ratio))
+				}
+			}
+		}
+	}
 	// ---- mixed costs, after a phase in which other keys were read often (their frequencies are
 	// saturated and have to age away): the hot set (45% of MaxSize by cost) must still win
 	costOf := func(k int) int64 { return 8 + int64((k*7)%17) }
